@@ -299,6 +299,9 @@ class IPCServer(IPCBase):
         else:
             try:
                 self.connection, _ = self.sock.accept()
+                # Bytes left over from a previous connection are not part of this one.
+                self.buffer = bytearray()
+                self.message_size = None
                 # This is already default on Linux, we set same buffer size
                 # for macOS vs Linux consistency to simplify reasoning.
                 self.connection.setsockopt(socket.SOL_SOCKET, socket.SO_RCVBUF, MAX_READ)
